@@ -4,6 +4,7 @@ package gocql
 
 import (
 	"errors"
+	"math/rand"
 	"net"
 	"strconv"
 )
@@ -89,4 +90,13 @@ func VerifC11GocqlReplicas(p HostSelectionPolicy, keyspace string, routingKey []
 		return nil
 	}
 	return ht.hosts
+}
+
+// VerifC11SetRandSource replaces the source behind the package's random generator (randr,
+// used by shuffleHosts for ShuffleReplicas) so that the overlapping-iterations sub-suite
+// can dictate - and enumerate - the outcome of every shuffle. Single-threaded callers only.
+func VerifC11SetRandSource(src rand.Source) {
+	mutRandr.Lock()
+	randr = rand.New(src)
+	mutRandr.Unlock()
 }
